@@ -24,4 +24,7 @@ cdef class MulticastOutgoingQueue:
     @cython.locals(pending=AnswerGroup)
     cdef void _remove_answers_from_queue(self, cython.dict answers)
 
+    @cython.locals(pending=AnswerGroup, answers=cython.dict)
+    cpdef void async_remove_records(self, cython.set records)
+
     cpdef void async_ready(self)
